@@ -6,6 +6,7 @@ package app
 // must reach the canonical topology without touching the recorded master.
 
 import (
+	"github.com/yandex/mysync/internal/dcs"
 	"fmt"
 	"math/rand"
 	"os"
@@ -95,6 +96,8 @@ func TestVerifC10(t *testing.T) {
 		aggr     bool
 		fault    bool
 		pin      *faultSpec // a specific call of the stale-master repair fails once
+		unreg    string     // this host is decommissioned at round 3: removed from the registry and made a stand-alone writable server
+		mgr      string     // host of the managing process ("" = h1)
 	}
 	var bases []base
 	for _, n := range []int{3, 4} {
@@ -107,13 +110,13 @@ func TestVerifC10(t *testing.T) {
 			for j := 0; j < n-1; j++ {
 				nodes = append(nodes, nodeOpts[rng.Intn(len(nodeOpts))])
 			}
-			bases = append(bases, base{n, nodes, []string{"rw", "sro"}[rng.Intn(2)], rng.Intn(4) == 0, rng.Intn(4) != 0, rng.Intn(2) == 0, rng.Intn(3) == 0, nil})
+			bases = append(bases, base{n, nodes, []string{"rw", "sro"}[rng.Intn(2)], rng.Intn(4) == 0, rng.Intn(4) != 0, rng.Intn(2) == 0, rng.Intn(3) == 0, nil, "", ""})
 		}
 	}
 	// single-dimension sweeps (each class alone on one node, others canonical)
 	for _, o := range nodeOpts {
 		for _, ag := range []bool{false, true} {
-			bases = append(bases, base{3, []nodeInit{o, {"sro", false, "master", "running", true}}, "rw", false, true, ag, false, nil})
+			bases = append(bases, base{3, []nodeInit{o, {"sro", false, "master", "running", true}}, "rw", false, true, ag, false, nil, "", ""})
 		}
 	}
 	rng.Shuffle(len(bases), func(a, b int) { bases[a], bases[b] = bases[b], bases[a] })
@@ -123,8 +126,16 @@ func TestVerifC10(t *testing.T) {
 	for _, st := range []string{"SetSuperReadOnly", "SetOffline", "SemiSyncDisable", "StopReplica", "ChangeSource", "StartReplica"} {
 		for _, ro := range []string{"rw", "sro"} {
 			pinned = append(pinned, base{3, []nodeInit{{ro, false, "none", "running", true}, {"sro", false, "master", "running", true}}, "rw", false, true, false, false,
-				&faultSpec{Chan: "sql", Stmt: st, At: "h2", Occ: 0, Times: 1, Kind: "fail"}})
+				&faultSpec{Chan: "sql", Stmt: st, At: "h2", Occ: 0, Times: 1, Kind: "fail"}, "", ""})
 		}
+	}
+	// a registered host is decommissioned while the manager runs: another host, or the very host the manager runs on
+	canon := nodeInit{"sro", false, "master", "running", true}
+	for _, ss := range []bool{true, false} {
+		pinned = append(pinned,
+			base{3, []nodeInit{canon, canon}, "rw", false, ss, false, false, nil, "h3", ""},
+			base{3, []nodeInit{canon, canon}, "rw", false, ss, false, false, nil, "h2", "h2"},
+			base{4, []nodeInit{canon, canon, canon}, "rw", false, ss, true, false, nil, "h3", "h3"})
 	}
 	rng.Shuffle(len(pinned), func(a, b int) { pinned[a], pinned[b] = pinned[b], pinned[a] })
 	bases = append(pinned, bases...)
@@ -150,6 +161,16 @@ func TestVerifC10(t *testing.T) {
 			sc.ID = fmt.Sprintf("%s-fail-%s@%s", id, b.pin.Stmt, b.pin.At)
 			id = sc.ID
 		}
+		if b.unreg != "" {
+			sc.ID = fmt.Sprintf("%s-unreg-%s-mgr%s", id, b.unreg, b.mgr)
+			id = sc.ID
+			if b.mgr != "" {
+				sc.Manager = b.mgr
+			}
+		}
+		unregAt := int64(-1)
+		actStart := map[string]int64{}
+		actMode := map[string]string{}
 		row := repairRow{Kind: "repair", Scn: id, HA: hosts, Master: "h1", W: 1, SemiSync: b.semisync, Stale: []string{}, SawOffline: map[string]bool{}, SawMarked: map[string]bool{},
 			Unrepairable: map[string]bool{}, Resets: []resetObs{}, Aggressive: b.aggr, MaxAttempts: 2, CooldownMs: 2000, Classes: cls}
 		for _, h := range hosts {
@@ -228,7 +249,13 @@ func TestVerifC10(t *testing.T) {
 						prev(ev, wl)
 					}
 					switch {
+					case ev.K == "app" && ev.Op == "Enter":
+						actStart[ev.By], actMode[ev.By] = ev.T, ev.Arg
 					case ev.K == "sql" && ev.At == "d1" && ev.By != "" && ev.By != "world":
+						row.DecoyStmts++
+					case ev.K == "sql" && ev.Mut && b.unreg != "" && ev.At == b.unreg && unregAt >= 0 && ev.By != "" && ev.By != "world" &&
+						actMode[ev.By] == "Manager" && actStart[ev.By] > unregAt:
+						// a manager activation that began after the host had left the registry still sends it statements
 						row.DecoyStmts++
 					case ev.K == "sql" && ev.Op == "ChangeSource" && ev.Arg == ev.At:
 						row.SelfChanges++
@@ -269,9 +296,31 @@ func TestVerifC10(t *testing.T) {
 				}
 				return nil
 			},
+			perRound: func(s *vSim, round int) bool {
+				if b.unreg != "" && round == 3 {
+					s.Z.Remove(vNS + "/" + dcs.PathHANodesPrefix + "/" + b.unreg)
+					s.W.Lock()
+					x := s.W.Hosts[b.unreg]
+					x.Src, x.IO, x.SQL, x.RO = "", "No", false, "rw"
+					s.W.Unlock()
+					unregAt = s.now()
+				}
+				return false
+			},
 			finish: func(s *vSim, r *vRunResult) {
 				row.Final = s.hostsSnapshot(true)
 				delete(row.Final, "d1")
+				if b.unreg != "" {
+					// the decommissioned host is no longer a node of the cluster: the end-state clauses do not speak about it
+					delete(row.Final, b.unreg)
+					var ha []string
+					for _, h := range row.HA {
+						if h != b.unreg {
+							ha = append(ha, h)
+						}
+					}
+					row.HA = ha
+				}
 				row.Active = nn(s.zkActive())
 				row.FinalMasterKey = s.zkMaster()
 			}})
